@@ -381,7 +381,7 @@ def task_C17(tier, seed, arg):
     from periodictable import nsf
     from periodictable.formulas import formula
     R = Result("very small (1e-11..1e-14) but non-zero weights and densities are NOT the zero case: the calculator equals the direct "
-               "calculation; exact zeros give zeros", False)
+               "calculation; exact zeros give zeros; scalar wavelengths of every numeric type give scalar outputs", False)
     mats = [formula("H2O"), formula("SiO2"), formula("Gd2O3")]
     for scale in (1.0, 1e-6, 1e-11, 1e-14):
         for rho in (2.0, 1e-9, 1e-12):
@@ -395,6 +395,18 @@ def task_C17(tier, seed, arg):
                 R.violation("C17:tiny_is_not_zero", "weights x %g at density %g: the calculator differs from the direct calculation "
                             "(a tiny amount is not 'zero total weight')" % (scale, rho), {"scale": scale, "density": rho},
                             [float(x) for x in got], [float(x) for x in exp])
+    # a scalar wavelength is a scalar whatever its numeric type (python int, numpy integer / float32 / float64 scalars)
+    mats2 = [formula("H2O"), formula("Gd2O3"), formula("SiO2")]
+    w2 = np.array([1.0, 0.25, 2.0])
+    for lam in (3, np.int64(2), np.int32(4), np.float32(1.5), np.float64(1.8), np.float16(2.0)):
+        R.ok(1, ("scalar-type", type(lam).__name__))
+        got = nsf.neutron_composite_sld(mats2, wavelength=lam)(w2, density=2.0)
+        total = w2[0] * mats2[0] + w2[1] * mats2[1] + w2[2] * mats2[2]
+        exp = nsf.neutron_sld(total, density=2.0, wavelength=float(lam))
+        if any(np.shape(g) != () for g in got) or not all(close(float(np.asarray(g).reshape(-1)[0]), float(e), 1e-9) for g, e in zip(got, exp)):
+            R.violation("C17:scalar_wavelength_type:%s" % type(lam).__name__, "a scalar wavelength of type %s must give scalar outputs equal to the direct "
+                        "calculation" % type(lam).__name__, {"wavelength": float(lam), "type": type(lam).__name__},
+                        [np.asarray(g).tolist() for g in got], [float(e) for e in exp])
     return R.done()
 
 
@@ -485,6 +497,181 @@ def task_C08(tier, seed, arg):
                         pass
     finally:
         core.PRIVATE_TABLES.pop(name, None)
+    return R.done()
+
+
+# ------------------------------------------------------------------------------------------------ C03 / C05 argument types
+def _typed(x):
+    import numpy as np
+    return [("int", 2), ("int64", np.int64(2)), ("int32", np.int32(2)), ("float32", np.float32(2.0)),
+            ("float64", np.float64(2.0)), ("list[int]", [2, 4]), ("tuple", (2.0, 4.0)), ("int-array", np.array([2, 4])),
+            ("float32-array", np.array([2.0, 4.0], dtype=np.float32)), ("2d", np.array([[2.0, 4.0], [1.0, 8.0]])),
+            ("descending", np.array([8.0, 4.0, 2.0, 1.0])), ("F-order", np.asfortranarray(np.array([[2.0, 4.0, 1.0], [8.0, 0.5, 3.0]]))),
+            ("transposed", np.array([[2.0, 4.0, 1.0], [8.0, 0.5, 3.0]]).T), ("strided", np.arange(1.0, 9.0)[::-2])]
+
+
+def _entrywise(R, key, what, fn, arg, rtol=1e-12):
+    """fn(arg) for an array-like arg has the shape of arg and entry i equals fn(float(arg_i)); scalars give scalars"""
+    import numpy as np
+    a = np.asarray(arg)
+    snapshot = a.copy()
+    got = fn(arg)
+    got = got if isinstance(got, tuple) else (got,)
+    bad = None
+    if isinstance(arg, np.ndarray) and not np.array_equal(arg, snapshot):
+        R.violation(key + ":argument_modified", what + ": the caller's array was modified", {"argument": snapshot.tolist(), "dtype": str(a.dtype)},
+                    np.asarray(arg).tolist(), snapshot.tolist())
+    a = snapshot
+    for g in got:
+        g = np.asarray(g)
+        if g.shape != a.shape:
+            bad = "shape %s for an argument of shape %s" % (g.shape, a.shape)
+            break
+    if bad is None:
+        for idx in np.ndindex(a.shape):
+            ref = fn(float(a[idx]))
+            ref = ref if isinstance(ref, tuple) else (ref,)
+            for g, r in zip(got, ref):
+                gv, rv = complex(np.asarray(g)[idx]), complex(np.asarray(r))
+                if not (close(gv.real, rv.real, rtol, 1e-300) and close(gv.imag, rv.imag, rtol, 1e-300)):
+                    bad = "entry %s is %r, the scalar call gives %r" % (idx, gv, rv)
+                    break
+            if bad:
+                break
+    if bad:
+        R.violation(key, what + ": " + bad, {"argument": a.tolist(), "dtype": str(a.dtype)})
+
+
+def task_C03(tier, seed, arg):
+    import numpy as np
+    from periodictable import nsf
+    from periodictable.formulas import formula
+    R = Result("neutron_scattering / neutron_sld with the wavelength (and energy) given in every numeric type and container: python int, numpy "
+               "integer and float32/16 scalars, lists, tuples, integer arrays, 2-D, descending, Fortran-ordered, transposed and strided "
+               "arrays: shaped like the argument, entry i equal to the scalar call, argument untouched; plain and energy-dependent compounds", False)
+    for text, rho in (("H2O", 1.0), ("Gd2O3", 7.4), ("Sm2O3", 8.3)):
+        f = formula(text, density=rho)
+        for tname, val in _typed(None):
+            R.ok(2, (text, tname))
+            _entrywise(R, "C03:argument_type:wavelength:%s:%s" % (tname, text), "neutron_scattering(%s, wavelength=<%s>)" % (text, tname),
+                       lambda w: tuple(nsf.neutron_scattering(f, wavelength=w)[0]) + tuple(nsf.neutron_scattering(f, wavelength=w)[1])
+                       + (nsf.neutron_scattering(f, wavelength=w)[2],), val, 1e-5 if "float32" in tname else 1e-12)
+            ev = nsf.neutron_energy(np.asarray(val, dtype=float)) if not isinstance(val, (int, float)) else nsf.neutron_energy(val)
+            _entrywise(R, "C03:argument_type:energy:%s:%s" % (tname, text), "neutron_sld(%s, energy=<%s>)" % (text, tname),
+                       lambda e: tuple(nsf.neutron_sld(f, energy=e)), ev)
+    return R.done()
+
+
+def task_C05(tier, seed, arg):
+    import numpy as np
+    import periodictable as pt
+    from periodictable import xsf
+    R = Result("xray_sld / index_of_refraction / scattering_factors / f0 with energies, wavelengths and Q in every numeric type and container "
+               "(see C03): shaped like the argument, entry i equal to the scalar call, argument untouched", False)
+    for tname, val in _typed(None):
+        R.ok(4, (tname,))
+        prec = 1e-5 if "float32" in tname else 1e-12
+        _entrywise(R, "C05:argument_type:xray_sld:%s" % tname, "xray_sld('SiO2', density=2.2, energy=<%s>)" % tname,
+                   lambda e: tuple(xsf.xray_sld("SiO2", density=2.2, energy=e)), val, prec)
+        _entrywise(R, "C05:argument_type:scattering_factors:%s" % tname, "Fe.xray.scattering_factors(wavelength=<%s>)" % tname,
+                   lambda w: tuple(pt.Fe.xray.scattering_factors(wavelength=w)), val, prec)
+        if tname not in ("list[int]", "tuple"):     # plain sequences are not promised for the refraction index
+            _entrywise(R, "C05:argument_type:index_of_refraction:%s" % tname, "index_of_refraction('Ni', density=8.9, wavelength=<%s>)" % tname,
+                       lambda w: xsf.index_of_refraction("Ni", density=8.9, wavelength=w), val, prec)
+        for atom in (pt.Ni, pt.Fe.ion[2], pt.O.ion[-2]):
+            _entrywise(R, "C05:argument_type:f0:%s:%s" % (tname, nat.atom_name(atom)), "%s.xray.f0(<%s>)" % (nat.atom_name(atom), tname),
+                       lambda q: atom.xray.f0(q), val, prec)
+    return R.done()
+
+
+# ------------------------------------------------------------------------------------------------ C19
+def task_C19(tier, seed, arg):
+    import periodictable as pt
+    from periodictable import core, mass, density
+    from periodictable.formulas import formula, mix_by_weight
+    R = Result("Hill form of formulas whose atoms come from two tables (a private and the public one), of isotope ions of one element "
+               "in one charge state written in both orders, and of the same atom reached by different routes: same atom counts, "
+               "canonical order, idempotent", False)
+    name = "stateful_c19_%d" % random.Random(seed).randrange(10 ** 9)
+    T = core.PeriodicTable(name)
+    try:
+        mass.init(T)
+        density.init(T)
+        mixed = [formula("H2O", table=T) + formula("H2O2"), formula({T.O: 1, pt.O: 2, pt.H: 2}),
+                 mix_by_weight(formula("H2O@1", table=T), 1, "D2O@1.11", 1), formula([(1, T.Fe), (2, pt.Fe), (3, T.Fe[56]), (1, pt.Fe[56])])]
+        for k, f in enumerate(mixed):
+            R.ok(2, ("mixed", k))
+            h = f.hill
+            if not nat.maps_close(h.atoms, f.atoms) or len(h.atoms) != len(f.atoms):
+                R.violation("C19:mixed_tables:atoms:%d" % k, "the Hill form of a formula holding the same element from two tables loses or merges atoms",
+                            {"case": k}, {"%s@%s" % (nat.atom_name(a), getattr(a, "table", "?")): n for a, n in h.atoms.items()},
+                            {"%s@%s" % (nat.atom_name(a), getattr(a, "table", "?")): n for a, n in f.atoms.items()})
+            if h.hill.structure != h.structure and nat.maps_close(h.hill.atoms, h.atoms) is False:
+                R.violation("C19:mixed_tables:idempotent:%d" % k, "hill of hill differs", {"case": k})
+    finally:
+        core.PRIVATE_TABLES.pop(name, None)
+    for el, isos, q in (("Ni", (58, 60), 2), ("O", (16, 18), -2), ("Li", (6, 7), 1), ("Fe", (54, 56), 3)):
+        E = getattr(pt, el)
+        a, b, c = E[isos[0]].ion[q], E[isos[1]].ion[q], E.ion[q]
+        import itertools
+        forms = [formula([(1, x) for x in perm]).hill for perm in itertools.permutations((a, b, c))]
+        R.ok(len(forms), (el,))
+        if any(f.structure != forms[0].structure for f in forms):
+            R.violation("C19:isotope_ions_order:%s" % el, "isotope ions of one element in one charge state: the Hill form depends on the order written",
+                        {"atoms": [nat.atom_name(x) for x in (a, b, c)]}, sorted(set(str(f) for f in forms)))
+        want = [nat.atom_name(x) for x in (c, a, b)]
+        got = [nat.atom_name(x) for n, x in forms[0].structure]
+        if got != want:
+            R.violation("C19:isotope_ions_order:%s:mass_number" % el, "isotopes of one element (same charge) are not in order of mass number "
+                        "after the natural element", {"atoms": want}, got, want)
+    return R.done()
+
+
+# ------------------------------------------------------------------------------------------------ C20
+def task_C20(tier, seed, arg):
+    import numpy as np
+    import periodictable as pt
+    R = Result("magnetic and x-ray form factors on caller-owned Q arrays of every type/layout (see C03): shaped like Q, entry i equal to the "
+               "scalar call, Q untouched; the same Q array used for j0, j2, j4, j6, J in turn gives what fresh arrays give", False)
+    ions = [(pt.Fe.ion[2], 2), (pt.Mn.ion[2], 2), (pt.Ni.ion[2], 2), (pt.Ce.ion[2], 2)]
+    for ion, q in ions:
+        ff = ion.magnetic_ff[q]
+        for tname, val in _typed(None):
+            for m in ("j0_Q", "j2_Q", "j4_Q", "j6_Q", "J_Q", "M_Q"):
+                try:
+                    getattr(ff, m)(0.5)
+                except AttributeError:
+                    continue
+                R.ok(1, (nat.atom_name(ion), tname, m))
+                try:
+                    _entrywise(R, "C20:argument_type:%s:%s" % (m, tname), "%s.magnetic_ff[%d].%s(<%s>)" % (nat.atom_name(ion), q, m, tname),
+                               lambda Q: getattr(ff, m)(Q), val, 1e-5 if "float32" in tname else 1e-12)
+                except Exception as e:
+                    R.violation("C20:argument_type:%s:%s:exception" % (m, tname), "raised %s: %s" % (type(e).__name__, e), {"type": tname})
+        Q = np.linspace(0.0, 9.0, 7)
+        keep = Q.copy()
+        seq = []
+        for m in ("j2_Q", "j0_Q", "j4_Q", "j6_Q", "J_Q", "j0_Q"):
+            try:
+                getattr(ff, m)(0.5)
+                seq.append(m)
+            except AttributeError:
+                pass
+        for m in seq:
+            R.ok(1, (nat.atom_name(ion), "shared-Q", m))
+            got = np.array(getattr(ff, m)(Q), dtype=float)
+            exp = np.array(getattr(ff, m)(keep.copy()), dtype=float)
+            if not np.array_equal(Q, keep):
+                R.violation("C20:shared_Q:modified:%s" % m, "%s modified the caller's Q array" % m, {"ion": nat.atom_name(ion)}, Q.tolist(), keep.tolist())
+                Q = keep.copy()
+            if not np.allclose(got, exp, rtol=1e-12, atol=0, equal_nan=True):
+                R.violation("C20:shared_Q:value:%s" % m, "%s on a Q array used before differs from a fresh array" % m, {"ion": nat.atom_name(ion)},
+                            got.tolist(), exp.tolist())
+    for atom in (pt.Ni, pt.Fe.ion[3], pt.Cl.ion[-1], pt.D):
+        for tname, val in _typed(None):
+            R.ok(1, (nat.atom_name(atom), tname, "f0"))
+            _entrywise(R, "C20:argument_type:f0:%s" % tname, "%s.xray.f0(<%s>)" % (nat.atom_name(atom), tname), lambda q: atom.xray.f0(q), val,
+                       1e-5 if "float32" in tname else 1e-12)
     return R.done()
 
 
